@@ -4,8 +4,9 @@ comparison of ids, bounded buffers, two-digit columns and similar slips change b
 Each document comes with its intended AST (built while the text is written) and line kinds."""
 from __future__ import annotations
 
-THRESH = [9, 10, 11, 12, 31, 32, 33, 63, 64, 65, 66, 99, 100, 101, 127, 128, 129, 255, 256, 257,
-          511, 512, 513, 999, 1000, 1001, 1023, 1024, 1025]
+SPARSE = [199, 200, 201, 255, 256, 257, 511, 512, 513, 999, 1000, 1001, 1023, 1024, 1025]
+THRESH = list(range(1, 131)) + SPARSE            # quick: every size 1..130 (a limit can sit anywhere, e.g. at 80), then the usual suspects
+THRESH_THOROUGH = list(range(1, 301)) + [n for n in SPARSE if n > 300] + [2047, 2048, 2049, 4095, 4096, 4097]
 DIMS = ["table_rows", "table_cols", "tags_on_line", "tag_lines", "steps", "scenarios", "examples_rows",
         "examples_tables", "description_lines", "docstring_lines", "name_length", "indent", "rules",
         "comments", "blank_lines", "window", "cell_length", "examples_cols", "background_steps"]
@@ -190,8 +191,11 @@ def build(dim, n):
 def cases(tier, part=None, parts=None):
     """(dim, n) pairs; quick stops at 257 except for the cheap dimensions."""
     out = []
+    cheap = ("window", "table_rows", "tag_lines", "comments", "blank_lines", "name_length", "indent", "cell_length")
     for dim in DIMS:
-        for n in THRESH:
+        for n in (THRESH if tier == "quick" else THRESH_THOROUGH):
+            if n > 1025 and dim not in cheap:
+                continue
             if tier == "quick" and n > 257 and dim not in ("window", "table_rows", "tag_lines", "comments", "blank_lines", "name_length", "indent", "cell_length"):
                 continue
             if dim in ("rules", "scenarios", "examples_tables") and n > 513 and tier == "quick":
